@@ -155,15 +155,28 @@ class BeeSearch(
         progs = self.G.programs()
         infinite = progs < 0
         failed = 0
-        while (
-            infinite
-            or (self._has_merged and failed < 1000)
-            or (not self._has_merged and progs > 0)
-        ):
+        # cost of the most expensive program of a finite grammar: nothing comes after it
+        most: Dict[Tuple[Type, U], float] = {}
+
+        def max_cost(S: Tuple[Type, U]) -> float:
+            if S not in most:
+                most[S] = max(
+                    self.G.probabilities[S][P]
+                    + sum(
+                        max_cost(self._non_terminal_for_(S, P, i))
+                        for i in range(self.G.arguments_length_for(S, P))
+                    )
+                    for P in self.G.rules[S]
+                )
+            return most[S]
+
+        while True:
             non_terminals, cost = self._next_cheapest_()
             if cost is None:
                 break
             if len(non_terminals) == 0:
+                break
+            if not infinite and cost > max_cost(self.G.start):
                 break
             failed += 1
             succ = False
